@@ -37,6 +37,7 @@ type Profile struct {
 	UnnamedPct      int    // % of signatures with unnamed parameters
 	GopathPct       int    // % of worlds in GOPATH+vendor layout
 	ModPath         string // module-relative import path prefix of the world (default example.com/w, own go.mod)
+	SameAliasPct    int    // % of aliased imports that reuse an alias another file gave to a DIFFERENT package
 	LiteralAliasPct int    // % of non-generic interfaces declared as alias of an interface literal
 	NoDotBlank      bool   // no dot / blank imports in the source files
 	UniqueAliases   bool   // never use one alias for two different paths (known finding F-K, harness F)
@@ -70,9 +71,10 @@ type G struct {
 	declFold   map[string]bool
 	methSeq    int
 	inPlace    bool
-	gopath     bool     // GOPATH + vendor layout
-	forceNamed bool     // current interface has a blank type parameter (named v, v1.. by moq): keep generated parameter names away (F-L)
-	tparams    []tparam // in scope while drawing a generic interface
+	gopath     bool          // GOPATH + vendor layout
+	forceNamed bool          // current interface has a blank type parameter (named v, v1.. by moq): keep generated parameter names away (F-L)
+	usedPkgs   map[*Pkg]bool // packages some generated type already mentions
+	tparams    []tparam      // in scope while drawing a generic interface
 	n          int
 }
 
@@ -604,6 +606,10 @@ func (g *G) named(c tyCtx) *Ty {
 		}
 	}
 	nc := cs[g.Int(0, len(cs)-1)]
+	if g.usedPkgs == nil {
+		g.usedPkgs = map[*Pkg]bool{}
+	}
+	g.usedPkgs[nc.p] = true
 	t := &Ty{K: KNamed, Name: nc.d.Name, Pkg: nc.p, Cmp: nc.d.Cmp}
 	for i := 0; i < nc.d.NTParams; i++ {
 		t.Args = append(t.Args, g.ty(tyCtx{needCmp: nc.d.TPCmp[i], depth: c.depth + 1}))
@@ -895,6 +901,23 @@ func (g *G) sig(depth int, inner bool) *Sig {
 		// make the later parameter mention two different packages in one type (both imports arrive together)
 		if g.Chance(60) {
 			a, b := g.named(tyCtx{needCmp: true, depth: depth + 1}), g.named(tyCtx{depth: depth + 1})
+			// prefer two packages nothing else mentions yet: only then are both imports registered *by this parameter*
+			var fresh []namedCand
+			for _, nc := range append(g.namedCands(true), g.stdCands(true)...) {
+				if !g.usedPkgs[nc.p] && nc.p != g.src && nc.d.NTParams == 0 {
+					fresh = append(fresh, nc)
+				}
+			}
+			if len(fresh) >= 2 && g.Chance(70) {
+				x := fresh[g.Int(0, len(fresh)-1)]
+				y := fresh[g.Int(0, len(fresh)-1)]
+				if x.p != y.p {
+					a = &Ty{K: KNamed, Name: x.d.Name, Pkg: x.p, Cmp: true}
+					b = &Ty{K: KNamed, Name: y.d.Name, Pkg: y.p, Cmp: y.d.Cmp}
+					g.usedPkgs[x.p], g.usedPkgs[y.p] = true, true
+					g.label("param:shadows-two-fresh-imports")
+				}
+			}
 			if a.Pkg != b.Pkg {
 				if g.Chance(50) {
 					s.Params[j].T = &Ty{K: KMap, Key: a, Elem: b}
@@ -1594,6 +1617,19 @@ func (g *G) assignFiles() {
 					g.label("alias:other-pkg-name")
 				case 5:
 					alias = UpperFirst(p.Name)
+				}
+				if len(globalAlias) > 0 && g.Chance(g.P.SameAliasPct) {
+					// the alias some other file uses for another package
+					var others []string
+					for op, oa := range globalAlias {
+						if op != p {
+							others = append(others, oa)
+						}
+					}
+					sort.Strings(others)
+					if len(others) > 0 {
+						alias = others[g.Int(0, len(others)-1)]
+					}
 				}
 			}
 			q := alias
